@@ -20,6 +20,8 @@ CHECKS = {
          "Alpha-renaming (incl. internal names permuted), blanks, redundant parentheses, long/short spellings, constant spellings; equal results required."),
  "C10": ("trace validation of wild-card substitution of closed sub-formulae (Trace_Sem 'equal')",
          "Raw results of closed sub-formulae are fed back as wild-card context (1-3 simultaneous replacements); plain formulae through extended entry points with empty context."),
+ "C11": ("law catalogue in TLA+ (Laws.tla) model-checked by TLC on all total Kripke structures up to 3 states x all argument sets (MC_Laws); both sides of every law judged against Hctl.Sat on small networks (Trace_Sem); TLC-exported catalogue replayed on the bundled benchmark models, BDD-equality facts checked by Trace_Laws; EF/AG/EU against the graph library's reachability",
+         "Fixed-point characterisations, dualities, monotonicity, weak until, self-loops on steady states. On benchmark-size models the check is agreement between two computations (law replay), not comparison with the reference semantics."),
  "C12": ("trace validation of pattern formulae vs pattern-defeating rewrites vs reference semantics (Trace_Sem 'denote','equal'); Attractor/Steady defined graph-theoretically in BoolNet.tla",
          "Patterns and near-misses at top level, under operators, in (domain-restricted) scopes, in batches, on constrained networks."),
  "C13": ("TLA+ weak-until semantics; trace validation of EW/AW formulae and of the defining equivalences evaluated through the tool (Trace_Sem 'denote','equal')",
